@@ -69,6 +69,7 @@ func cmdOptable(args []string) int {
 // gate case payload: dtypes (or "nil") of the supplied input list; expect = "accept" | "error"; padded length on accept.
 type gateX struct {
 	Dts    []string `json:"dts"`
+	Shk    []string `json:"shk"` // shape of the tensor at each position: one [1] (default), empty [0], empty2 [2,0], scalar [], mat [2,3]
 	Expect string   `json:"expect"`
 	Padded int      `json:"padded"`
 	Errc   []string `json:"errc"`
@@ -91,7 +92,24 @@ func gateOnce(op ops.Operator, c *Case, spare bool) (string, string) {
 		if d == "nil" {
 			continue
 		}
-		t, err := MkTensor(AbsTensor{Dt: d, Shape: []int{1}, Data: []Elem{IntElem(1)}})
+		shape, n := []int{1}, 1
+		if i < len(x.Shk) {
+			switch x.Shk[i] {
+			case "empty":
+				shape, n = []int{0}, 0
+			case "empty2":
+				shape, n = []int{2, 0}, 0
+			case "scalar":
+				shape, n = []int{}, 1
+			case "mat":
+				shape, n = []int{2, 3}, 6
+			}
+		}
+		data := make([]Elem, n)
+		for k := range data {
+			data[k] = IntElem(1)
+		}
+		t, err := MkTensor(AbsTensor{Dt: d, Shape: shape, Data: data})
 		if err != nil {
 			return "infra:" + err.Error(), ""
 		}
